@@ -259,7 +259,10 @@ impl C16 {
                 out.faults[F_STALL] += def.stalls;
                 out.faults[F_JUMP] += def.jumps;
                 judge(op, &plain, &def.changes).map_err(|f| tag_op(f, "default".into()))?;
-                if def.now_plus_calls != 1 || def.asked.iter().any(|a| !def.given.contains(a)) {
+                if def.now_plus_calls > 1
+                    || (def.probes > 0 && def.now_plus_calls != 1)
+                    || def.asked.iter().any(|a| !def.given.contains(a))
+                {
                     return fail(
                         "c16.default_budget_plumbing",
                         format!(
